@@ -46,6 +46,7 @@ type BaseClient struct {
 	muConnecting sync.RWMutex
 	muWrite      sync.Mutex
 	idLast       uint32
+	inbound      *inboundStore
 
 	muStats sync.RWMutex
 	stats   BaseStats
@@ -87,6 +88,51 @@ func (c *BaseClient) Stats() BaseStats {
 	c.muStats.RLock()
 	defer c.muStats.RUnlock()
 	return c.stats
+}
+
+// inboundStore keeps the QoS 2 messages which have been received but not yet released by PUBREL.
+// It is a part of the session state (MQTT 3.1.1 4.1) and outlives the connection:
+// RetryClient hands it over to the client of the next connection.
+type inboundStore struct {
+	mu   sync.Mutex
+	msgs map[uint16]*Message
+}
+
+func (s *inboundStore) store(id uint16, msg *Message) {
+	s.mu.Lock()
+	s.msgs[id] = msg
+	s.mu.Unlock()
+}
+
+func (s *inboundStore) release(id uint16) (*Message, bool) {
+	s.mu.Lock()
+	msg, ok := s.msgs[id]
+	delete(s.msgs, id)
+	s.mu.Unlock()
+	return msg, ok
+}
+
+func (s *inboundStore) reset() {
+	s.mu.Lock()
+	s.msgs = make(map[uint16]*Message)
+	s.mu.Unlock()
+}
+
+func (c *BaseClient) inboundMessages() *inboundStore {
+	c.mu.Lock()
+	defer c.mu.Unlock()
+	if c.inbound == nil {
+		c.inbound = &inboundStore{msgs: make(map[uint16]*Message)}
+	}
+	return c.inbound
+}
+
+// inheritInbound continues the inbound QoS 2 exchanges of the previous client of the session.
+func (c *BaseClient) inheritInbound(prev *BaseClient) {
+	s := prev.inboundMessages()
+	c.mu.Lock()
+	c.inbound = s
+	c.mu.Unlock()
 }
 
 // Handle registers the message handler.
